@@ -338,7 +338,17 @@ pub fn test_user_word(c: &UserWord, ctx: &mut CaseCtx) -> Result<(), String> {
     let mut group = LintGroup::new_curated(m.clone(), DIALECTS[c.dialect as usize % 4]);
     group.config = crate::generators::ConfigSpec::only(&["SpellCheck"]).build();
     let curated = FstDictionary::curated();
+    // the listed form, and for a lower-case entry also its capitalised and upper-case forms
+    let mut forms: Vec<String> = vec![];
     for w in &c.user {
+        forms.push(w.clone());
+        if w.chars().all(|ch| !ch.is_uppercase()) {
+            forms.push(apply_form(w, 1));
+            forms.push(apply_form(w, 2));
+            ctx.class("recased_form_of_a_lower_case_user_word");
+        }
+    }
+    for w in &forms {
         let text = format!("{}{w}{}", c.frame.0, c.frame.1);
         let s = c.frame.0.chars().count();
         let n = w.chars().count();
@@ -352,7 +362,7 @@ pub fn test_user_word(c: &UserWord, ctx: &mut CaseCtx) -> Result<(), String> {
         }
         if let Some(l) = hit {
             return Err(format!(
-                "the user dictionary lists {w:?} (all user words: {:?}) yet it is reported in {text:?}: {}",
+                "the user dictionary lists {w:?} or its lower-case form (all user words: {:?}) yet it is reported in {text:?}: {}",
                 c.user, l.message
             ));
         }
@@ -408,7 +418,7 @@ fn frame() -> BoxedStrategy<(String, String)> {
 }
 
 pub fn run(run: &mut Run) {
-    run.rule = "(->) exhaustive: every entry of the curated dictionary (words_iter) x 4 dialects alone as a document, lower-case entries also Capitalised and UPPER; random: entries at positions inside 7 sentence frames. Ground truth is the dictionary's own word list and metadata. dialect_entries_in_noun_phrases: every single-token entry that carries a dialect tag x 4 dialects (exhaustive) alone and inside 8 noun-phrase frames (determiner + word + noun, ...): the verdict must not depend on the neighbours. user_dictionary_entries: the curated dictionary merged with 1-3 user words (re-capitalised curated entries, non-words): a user word in its listed capitalisation is never reported. (<-) ASCII-letter strings the dictionary does not contain under any capitalisation (random strings and one-edit neighbours of dictionary words, by construction then a membership test) alone and in frames: exactly one Spelling lint with exactly the word's span, every suggestion a dictionary word of the active dialect. Non-trivial (->) = affix-derived, dialect-tagged, non-ASCII or apostrophe entry; (<-) = edit distance 1 from a real word.".into();
+    run.rule = "(->) exhaustive: every entry of the curated dictionary (words_iter) x 4 dialects alone as a document, lower-case entries also Capitalised and UPPER; random: entries at positions inside 7 sentence frames. Ground truth is the dictionary's own word list and metadata. dialect_entries_in_noun_phrases: every single-token entry that carries a dialect tag x 4 dialects (exhaustive) alone and inside 8 noun-phrase frames (determiner + word + noun, ...): the verdict must not depend on the neighbours. user_dictionary_entries: the curated dictionary merged with 1-3 user words (re-capitalised curated entries, non-words): a user word in its listed capitalisation, and the capitalised / upper-case form of a lower-case user word, is never reported. (<-) ASCII-letter strings the dictionary does not contain under any capitalisation (random strings and one-edit neighbours of dictionary words, by construction then a membership test) alone and in frames: exactly one Spelling lint with exactly the word's span, every suggestion a dictionary word of the active dialect. Non-trivial (->) = affix-derived, dialect-tagged, non-ASCII or apostrophe entry; (<-) = edit distance 1 from a real word.".into();
     let h = g::harvest();
     if !run.strict && run.known.get(KF_MULTI).is_some() {
         let w = WordCase { word: "Wi-Fi's".into(), dialect: 0, form: 0, prefix: String::new(), postfix: String::new() };
